@@ -2,6 +2,7 @@ mod c01;
 mod c02;
 mod c03;
 mod c07;
+mod c10;
 mod c11;
 mod c12;
 mod c13;
@@ -11,6 +12,7 @@ mod c17;
 mod core;
 mod auto;
 mod logcap;
+mod prn;
 mod rx;
 mod sched;
 mod srch;
@@ -23,6 +25,7 @@ fn main() {
         "c02" => c02::run(&args),
         "c03" => c03::run(&args),
         "c07" => c07::run(&args),
+        "c10" => c10::run(&args),
         "c11" => c11::run(&args),
         "c12" => c12::run(&args),
         "c13" => c13::run(&args),
